@@ -55,6 +55,7 @@ class C03(Prop):
     id = 'C03'
     k2_mask = {('rec', 'id'), ('rec', 'node'), ('rec', 'type'), ('rec', 'arr'), ('rec', 'exit'), ('rec', 'dest'), ('rec', '*'), ('ind', 'node'), ('ind', 'nrec'), ('ind', '*')}      # the slice of the engine state / records this property reads (DESIGN 7, table of slices)
     k2_frames = 40
+    k2_invs2 = {'jrn2', 'wfx2'}         # the stage-2 T2 invariants this property answers for on real snapshots ('jrn2': with the real record history)
     k2_invs = {'jrn', 'who', 'wfx'}          # the T2 invariants this property answers for on real snapshots ('jrn': with the real record history)
     num = 3
     regions = {'quick': [('core', 80), ('block', 100), ('routers', 60), ('renege', 60), ('renege_jockey', 60), ('schedpre_block', 40), ('preempt', 50), ('prio_reroute', 40),
